@@ -91,7 +91,19 @@ def impl(case):
     try:
         if kind == "decode":
             m = Message(case["line"])
-            return ["ok", m.node_id, m.child_id, m.type, m.ack, m.sub_type, m.payload]
+            first = ["ok", m.node_id, m.child_id, m.type, m.ack, m.sub_type, m.payload]
+            # an attempt with another delimiter in between (it fails for a ';' line) must not change what the
+            # line decodes to afterwards
+            try:
+                Message().decode(case["line"], "/")
+            except ValueError:
+                pass
+            try:
+                m = Message(case["line"])
+                again = ["ok", m.node_id, m.child_id, m.type, m.ack, m.sub_type, m.payload]
+            except ValueError:
+                again = None
+            return first if again == first else ["err", "DecodeDependsOnEarlierCalls"]
         hdr = case["hdr"]
         if kind == "encode":
             h = _enumify(hdr) if case.get("enum") else hdr
@@ -165,6 +177,8 @@ def monitor(case, obs):
     from mysensors.message import Message
     kind = case["kind"]
     if kind == "decode":
+        if obs[0] == "err" and obs[1] == "DecodeDependsOnEarlierCalls":
+            return f"line {case['line']!r} decodes, but not any more after decode(line, '/') was tried on it"
         if obs[0] == "err":
             return None if obs[1] == "ValueError" else f"decode raised {obs[1]} instead of ValueError"
         # independent reading of the header: CPython's int() on the six ';' fields of the right-stripped line
@@ -233,7 +247,49 @@ def nontrivial(case, obs):
     return bool(case["repl"])
 
 
+ENC_RACES = [   # (warm-up header, header of thread A, header of thread B): same / different headers, another before
+    ([9, 9, 1, 0, 2], [1, 2, 1, 0, 2], [1, 2, 1, 0, 2]),
+    ([9, 9, 1, 0, 2], [1, 2, 1, 0, 2], [3, 4, 1, 1, 5]),
+    ([1, 2, 1, 0, 2], [1, 2, 1, 0, 2], [9, 9, 1, 0, 2]),
+]
+
+
+def _enc(h, p):
+    from mysensors.message import Message
+    try:
+        return Message(node_id=h[0], child_id=h[1], type=h[2], ack=h[3], sub_type=h[4], payload=p).encode()
+    except Exception as exc:      # noqa: BLE001
+        return "exc:" + type(exc).__name__
+
+
+def run_encode_races(ctx, res):
+    """Two threads encode (and decode) at the same time, every interleaving at source-line granularity of message.py up
+    to one preemption: each result is what the call returns alone."""
+    from harness.impl import sched
+    from mysensors import message
+    for w, a, b in ENC_RACES:
+        alone = (_enc(a, "a"), _enc(b, "b"), _enc(a, "a"))
+
+        def make():
+            _enc(w, "w")
+            out = {}
+            return [lambda: out.__setitem__("a", _enc(a, "a")),
+                    lambda: (out.__setitem__("b", _enc(b, "b")), out.__setitem__("a2", _enc(a, "a")))], \
+                lambda: (out.get("a"), out.get("b"), out.get("a2"))
+        try:
+            for choices, trace, o in sched.explore(make, [message.__file__], 1):
+                res.evaluations += 1
+                res.count("encode-race-schedules")
+                if o != alone:
+                    res.violate("codec:concurrent-encode", f"two threads encoding {a} and {b} (after {w}): {o}, alone {alone}",
+                                {"kind": "race", "w": w, "a": a, "b": b, "choices": choices})
+                    break
+        except sched.HarnessError as exc:
+            res.violate("codec:race-harness", f"HarnessError {exc}", {"kind": "race"}, kind="harness", found_input=False)
+
+
 def run(ctx, res):
+    run_encode_races(ctx, res)
     cases = gen_cases(ctx)
     obs = [impl(c) for c in cases]
     if ctx.model is not None:
@@ -269,6 +325,10 @@ def run(ctx, res):
 
 def replay(ctx, case):
     c = case["case"] if "case" in case else case
+    if c.get("kind") == "race":
+        r = core.Result(ID)
+        run_encode_races(ctx, r)
+        return {"violations": [v.what for v in r.violations][:3], "violates": bool(r.violations)}
     o = impl(c)
     out = {"case": c, "impl": o, "monitor": monitor(c, o)}
     if ctx.model is not None:
